@@ -11,7 +11,7 @@
   the model is sequential — one digest request is one step (`hashLock` held for the whole body), and the tagged
   hashes (`btc.Hasher`, here `tagPrefix` / `H`) are pure functions of their input, so an implementation that hands
   the SAME hasher object to two goroutines, or publishes a cache field before it is filled, satisfies every theorem
-  below and is caught only by the parallel streams. Which script code / code-separator position the interpreter
+  below and is caught only by the parallel streams (timing) and the race-detector child (go/cmd/c02/race.go). Which script code / code-separator position the interpreter
   passes at each executed CHECKSIG / CHECKMULTISIG is C01's model (Model/ScriptEval.lean); any per-input memo in
   `SigChecker` is code outside this model and is covered by the end-to-end streams (scripts with several checks).
 -/
@@ -210,6 +210,43 @@ theorem undefined_is_failure_counterexample :
     simp [Spec.SigHash.bip341, Spec.SigHash.bip341Msg, sigHashType, Spec.SigHash.validTaprootHashType]
   · intro V H pubkey
     simp [checkSchnorrSignature, schnorrPlan, taprootSigHash]
+
+/-- SIGHASH_DEFAULT must not be spelled out (BIP341: "if the signature has 65 bytes the hash type byte must not
+    be 0x00"): a 65-byte signature whose last byte is 0x00 is refused - for every transaction, cache state,
+    public key, execution data, input index (in range or not) and verification function, before any digest is
+    asked for (the cache is left as it was). `undefined_is_failure` does not cover this case: BIP341 DOES define
+    a digest for hash type 0, so its hypothesis is false here. -/
+theorem explicit_default_hashtype_refused (fixed : Bool) (V : Bytes → Bytes → Bytes → Bool) (H : Bytes → Bytes) (tx : Tx)
+    (spent : List TxOut) (c : Cache) (sig pubkey : Bytes) (tapscript : Bool) (ed : ExecData) (idx : Nat)
+    (hl : sig.length = 65) (h0 : sig.getD 64 0 = 0) :
+    checkSchnorrSignature fixed V H tx spent c sig pubkey tapscript ed idx = some false ∧
+    (schnorrPlan fixed H tx spent c sig pubkey tapscript ed idx).2 = c := by
+  have hp : schnorrPlan fixed H tx spent c sig pubkey tapscript ed idx = (.fail, c) := by
+    unfold schnorrPlan
+    dsimp only
+    have h1 : ¬ (sig.length ≠ 64 ∧ sig.length ≠ 65) := fun h => h.2 hl
+    have h2 : sig.length = 65 ∧ (if sig.length = 65 then (sig.getD 64 0).toNat else 0) = 0 := by
+      refine ⟨hl, ?_⟩
+      rw [if_pos hl, h0]
+      rfl
+    rw [if_neg h1, if_pos h2]
+  unfold checkSchnorrSignature
+  rw [hp]
+  exact ⟨rfl, rfl⟩
+
+/-- … and so is every signature that has neither 64 nor 65 bytes. -/
+theorem schnorr_sig_size_refused (fixed : Bool) (V : Bytes → Bytes → Bytes → Bool) (H : Bytes → Bytes) (tx : Tx)
+    (spent : List TxOut) (c : Cache) (sig pubkey : Bytes) (tapscript : Bool) (ed : ExecData) (idx : Nat)
+    (hl : sig.length ≠ 64 ∧ sig.length ≠ 65) :
+    checkSchnorrSignature fixed V H tx spent c sig pubkey tapscript ed idx = some false := by
+  unfold checkSchnorrSignature schnorrPlan
+  rw [if_pos hl]
+
+-- explicit_default_hashtype_refused: such a signature exists, and with 64 bytes (hash type 0 implied) the same
+-- request reaches the verification function with a digest
+example : (List.replicate 64 (0xab : UInt8) ++ [0]).length = 65 ∧ (List.replicate 64 (0xab : UInt8) ++ [0]).getD 64 0 = 0 := by decide
+example : ∃ pk s m, (schnorrPlan true (fun b => b) exTx0 [{ value := 1, pkScript := [0x51] }] {}
+    (List.replicate 64 0xab) [2] false {} 0).1 = .verify pk s m := ⟨_, _, _, rfl⟩
 
 /-- Cache transparency: for every finite sequence of digest requests (legacy, BIP143, taproot; any
     arguments, any order) on one transaction object starting from the empty cache, each result equals
